@@ -229,3 +229,47 @@ func zzH_C18fb() {
 	c.Close()
 	vReach("end")
 }
+
+// zzH_C18r: recovery of a target that was down while another target's probe succeeded. Targets a, b;
+// b (or both) refuse connections when the client starts; the harness drives detector rounds itself
+// (c.detect, as the ticker would) so that "a round has happened since" is known: after a round in
+// which a target is reachable it is in the live list again, and round-robin calls reach it.
+func zzH_C18r() {
+	bothDown := vChoose("both-down-at-start", 2) == 1
+	rt := &zzRT{up: map[string]bool{"a": !bothDown, "b": false}}
+	c := NewClient(nil)
+	c.Transport = rt
+	c.Scheduling = Scheduling(vChoose("policy", 3))
+	vSetClockStep(1)
+	vSetTimerBudget(0)
+	vSetOneShotTimers(false)
+	c.Update("a", "b")
+	vQuiesce() // first detector round (started by Update): probes both
+	live := func() int {
+		c.lock.Lock()
+		defer c.lock.Unlock()
+		return len(c.list)
+	}
+	if bothDown {
+		vAssert(live() == 0, "down-targets-not-live")
+		rt.up["a"] = true
+		c.detect()
+		vQuiesce()
+	}
+	vAssert(live() == 1, "reachable-target-live-after-a-detector-round")
+	// b recovers; one more round
+	rt.up["b"] = true
+	c.detect()
+	vQuiesce()
+	vAssert(live() == 2, "recovered-target-is-used-again")
+	if c.Scheduling == RoundRobinScheduling {
+		n := len(rt.calls)
+		c.Call("S.M", nil, nil)
+		c.Call("S.M", nil, nil)
+		if len(rt.calls) == n+2 {
+			vAssert(rt.calls[n] != rt.calls[n+1], "recovered-target-is-used-again")
+		}
+	}
+	c.Close()
+	vReach("end")
+}
